@@ -283,7 +283,7 @@ pub fn run(ctx: &Ctx) -> Report {
     // value, not about a guess on the way (directed; the unique fixed point is reached in three passes). Width 8 / 4,
     // data directive and typed argument, just inside and just outside.
     {
-        let head = "#ruledef\n{\n    jb {a} => { assert(a < 6), 0xa @ a`4 }\n    jb {a} => 0xb0 @ a`8\n    t8 {x: u8} => 0x55 @ x\n    s8 {x: s8} => 0x66 @ x\n}\n";
+        let head = "#ruledef\n{\n    jb {a} => { assert(a < 6), 0xa @ a`4 }\n    jb {a} => 0xb0 @ a`8\n    t8 {x: u8} => 0x55 @ x\n    s8 {x: s8} => 0x66 @ x\n    ti {i: imm} => 0x77 @ i\n}\n#subruledef imm\n{\n    #{v: u8} => v\n}\n";
         // B - A is 2 in the first passes and 1 in the end
         let cases: Vec<(&str, Option<Vec<u8>>)> = vec![
             ("#d8 254 + (B - A)", Some(vec![0xff])),
@@ -294,6 +294,16 @@ pub fn run(ctx: &Ctx) -> Report {
             ("s8 (A - B) - 127", Some(vec![0x66, 0x80])),
             ("t8 255 + (B - A)", None),
             ("s8 (A - B) - 128", None),
+            // the other direction: in range for the first guess (B - A = 2), out of range in the end
+            ("#d8 257 - (B - A)", None),
+            ("t8 257 - (B - A)", None),
+            ("#d8 256 - (B - A)", Some(vec![0xff])),
+            ("t8 256 - (B - A)", Some(vec![0x55, 0xff])),
+            // ... and with the typed parameter inside a sub-rule operand
+            ("ti #(257 - (B - A))", None),
+            ("ti #(256 - (B - A))", Some(vec![0x77, 0xff])),
+            ("ti #(254 + (B - A))", Some(vec![0x77, 0xff])),
+            ("ti #(255 + (B - A))", None),
         ];
         let mut loc = Local::new();
         for (line, want) in &cases {
@@ -331,6 +341,55 @@ pub fn run(ctx: &Ctx) -> Report {
                     if let Some(b) = bad {
                         loc.violation(Violation { property: ID, key: format!("late-value:{}", b), what: format!("{} [iters={}]: {}", b, iters, src.replace('\n', " / ")), case: json!({"family": "late-value", "program": src, "iters": iters, "expected": {"accept": expect_bits.is_some(), "bits": expect_bits}, "observed": obs.summary()}) });
                     }
+                }
+            }
+        }
+        rep.absorb(loc);
+    }
+    // values that arrive through a command-line define: the same ranges apply, whatever spelling the value had
+    {
+        let head = "#ruledef\n{\n    s8 {x: s8} => 0x66 @ x\n    u8 {x: u8} => 0x55 @ x\n}\nval = 0\n";
+        // (define value, as #d8: Some(byte) / None, as s8 argument, as u8 argument)
+        let cases: Vec<(&str, Option<u8>, Option<u8>, Option<u8>)> = vec![
+            ("-0x81", None, None, None),
+            ("-0x80", Some(0x80), Some(0x80), None),
+            ("-0xff", None, None, None),
+            ("-129", None, None, None),
+            ("-128", Some(0x80), Some(0x80), None),
+            ("-1", Some(0xff), Some(0xff), None),
+            ("255", Some(0xff), None, Some(0xff)),
+            ("256", None, None, None),
+            ("0xff", Some(0xff), None, Some(0xff)),
+            ("-0b10000001", None, None, None),
+            ("-0b1111111", Some(0x81), Some(0x81), None),
+            ("127", Some(0x7f), Some(0x7f), Some(0x7f)),
+        ];
+        let mut loc = Local::new();
+        for (lit, d8, s8, u8v) in &cases {
+            for (usage, want, prefix) in [("#d8 val", d8, None), ("s8 val", s8, Some(0x66u8)), ("u8 val", u8v, Some(0x55u8))] {
+                let src = format!("{}{}\n", head, usage);
+                let def = format!("-dval={}", lit);
+                loc.eval();
+                loc.nontrivial(&(&src, &def));
+                loc.class(if want.is_some() { "define-value-accept" } else { "define-value-reject" });
+                let d = run::drive(&[("main.asm".to_string(), src.as_bytes().to_vec())], &["main.asm", "-q", "-f", "hexstr", "-o", "out.txt", &def], &["out.txt".to_string()]);
+                let got = d.written.iter().find(|(n, _)| n == "out.txt").map(|(_, b)| String::from_utf8_lossy(b).to_string());
+                let expect = want.map(|b| match prefix {
+                    Some(p) => format!("{:02x}{:02x}", p, b),
+                    None => format!("{:02x}", b),
+                });
+                let bad = if d.panicked.is_some() {
+                    Some("panic")
+                } else {
+                    match &expect {
+                        Some(e) if !d.ok || got.as_deref() != Some(e.as_str()) => Some("a representable define value is rejected or emitted wrongly"),
+                        None if d.ok || got.is_some() => Some("an unrepresentable define value is accepted (cut to fit)"),
+                        _ => None,
+                    }
+                };
+                loc.traces_validated += 1;
+                if let Some(b) = bad {
+                    loc.violation(Violation { property: ID, key: format!("define-value:{}", b), what: format!("{}: `{}` with {}: expected {:?}, written {:?}", b, usage, def, expect, got), case: json!({"family": "define-value", "program": src, "define": def, "expected": {"accept": expect.is_some(), "hex": expect}, "observed": {"ok": d.ok, "out.txt": got}}) });
                 }
             }
         }
